@@ -148,6 +148,14 @@ type S struct {
 //go:nosplit
 func nosplit() string { return "inside a nosplit function body" }
 
+// a table that fits the nosplit stack budget as written, and would not if it were built at run time
+//
+//go:nosplit
+func nosplitTable(i int) byte {
+	table := [512]byte{%TABLE%}
+	return table[i&511]
+}
+
 func generic[T any](x T) string { return fmt.Sprint(x, " in a generic function") }
 
 func label(s string) int {
@@ -168,12 +176,42 @@ func main() {
 	f := func() string { return "returned from a closure" + "; concatenated at compile time" }
 	fmt.Println(konst, typedKonst, injected, plainVar, len(arr), bytesVar, arrayVar, *ptrSlice, *ptrArray)
 	fmt.Println(m["map key literal"], s.F, string(s.B), f(), nosplit(), generic("type argument string"), label("switch case label number one"), label(konst))
-	fmt.Println(strings.Repeat("short", 2), Named("converted to a named type"), "%MARKER%")
+	fmt.Println(strings.Repeat("short", 2), Named("converted to a named type"), "%MARKER%", nosplitTable(3), nosplitTable(400))
 	const local = "function-local constant value"
 	x := local + " appended"
 	fmt.Printf("%s|%q|%v\n", x, "verb argument literal", []string{"slice element one", "slice element two"})
 }
 '''
+
+
+EXEMPT = [("a constant declared with const keyword", "const declaration"), ("typed constant, must stay constant", "typed const declaration"),
+          ("default value replaced by the linker", "-ldflags=-X target"), ("inside a nosplit function body", "nosplit function"),
+          ("array length constant", "array length"), ("function-local constant value", "local const declaration"), ("short", "below the window")]
+REWRITTEN = [("package level variable initialiser", "package var"), ("map key literal", "map key"), ("map value literal", "map value"),
+             ("struct field literal", "struct field"), ("conversion of a string literal", "[]byte conversion"), ("type argument string", "call argument"),
+             ("verb argument literal", "variadic argument"), ("slice element one", "slice element"), ("switch case label number one", "case label and its call-site twin")]
+
+
+def linker_vars(chk, E, fails):
+    """-ldflags=-X under -literals, for variables of main and of a package whose import path contains dots"""
+    mod = "gv.test/x.y/ldx"
+    files = {"go.mod": "module %s\n\ngo 1.26\n" % mod,
+             "main.go": 'package main\n\nimport (\n\t"fmt"\n\t"%s/ver.sion"\n)\n\nvar inMain = "default value in main, long enough"\n\nfunc main() { fmt.Println(inMain, version.Version, version.Commit(), version.Untouched) }\n' % mod,
+             "ver.sion/v.go": 'package version\n\nvar Version = "0.0.0-development-default"\n\nvar commit = "unknown-commit-default"\n\nvar Untouched = "not a linker target, long enough"\n\nfunc Commit() string { return commit }\n'}
+    root = E.write_module("ldx", files)
+    x = ["-ldflags=-X=main.inMain=injected-into-main -X=%s/ver.sion.Version=v1.22.33-injected -X=%s/ver.sion.commit=abcdef0123456789" % (mod, mod)]
+    pb = E.run_go(["build"] + x + ["-o", "plain", "."], root)
+    gb = E.run_garble(["-literals", "-seed=o9WDTZ4CN4w"], ["build"] + x + ["-o", "garbled", "."], root)
+    chk.count_cases(["ldflags-X|literals"])
+    st = chk.cov["streams"].setdefault("e2e:linker-vars", {"programs": 0, "equal": 0})
+    st["programs"] += 1
+    if pb.returncode != 0 or gb.returncode != 0:
+        fails.append({"why": "the -ldflags=-X program does not build with -literals", "detail": {"go": pb.stderr[-300:], "garble": gb.stderr[-600:]}, "key": "ldflags-build-fails"}); return
+    a, b = E.run_bin(os.path.join(root, "plain")), E.run_bin(os.path.join(root, "garbled"))
+    if a[1] == b[1]:
+        st["equal"] += 1
+    else:
+        fails.append({"why": "under -literals a variable set with -ldflags=-X does not hold the injected value", "detail": {"regular": a[1].decode()[-300:], "garbled": b[1].decode()[-300:], "flags": x}, "key": "ldflags-X-lost"})
 
 
 def whole_file(chk, E, orc, rnd, n, diffs, fails):
@@ -183,7 +221,7 @@ def whole_file(chk, E, orc, rnd, n, diffs, fails):
     try:
         for k in range(n):
             marker = "marker-%08x-%s" % (rnd.getrandbits(32), "x" * rnd.choice([0, 1, 250, 2040]))
-            src = LIT_PROGRAM.replace("%MARKER%", marker)
+            src = LIT_PROGRAM.replace("%MARKER%", marker).replace("%TABLE%", ", ".join(str((11 + 37 * j) % 251) for j in range(512)))
             root = E.write_module("file%d" % k, {"go.mod": "module gv.test/litfile\n\ngo 1.26\n", "main.go": src})
             b = E.run_go(["build", "-o", "orig", "."], root)
             if b.returncode != 0:
@@ -197,6 +235,14 @@ def whole_file(chk, E, orc, rnd, n, diffs, fails):
             if a.startswith("err") or a.startswith("!"):
                 fails.append({"why": "literals.Obfuscate fails on a program the compiler accepts", "detail": {"seed": seed, "answer": a[:300]}, "key": "obfuscate-fails"}); continue
             out = unhex(a).decode("utf-8", "surrogateescape")
+            # the decision model at source level: exempt literals stay verbatim, the others are gone from the rewritten file
+            for lit, why in EXEMPT:
+                if '"%s"' % lit not in out:
+                    fails.append({"why": "a literal that must be left alone was rewritten by -literals", "detail": {"literal": lit, "context": why, "seed": seed}, "key": "exempt-literal-rewritten:" + why})
+            for lit, why in REWRITTEN:
+                if '"%s"' % lit in out:
+                    fails.append({"why": "a literal inside the obfuscation window was left verbatim by -literals", "detail": {"literal": lit, "context": why, "seed": seed}, "key": "literal-not-rewritten:" + why})
+            st["decisions_checked"] = st.get("decisions_checked", 0) + len(EXEMPT) + len(REWRITTEN)
             root2 = E.write_module("file%d_obf" % k, {"go.mod": "module gv.test/litfile\n\ngo 1.26\n"})
             with open(os.path.join(root2, "main.go"), "w", encoding="utf-8", errors="surrogateescape") as f:
                 f.write(out)
@@ -233,6 +279,7 @@ def main(tier, replay=None):
         for k in range(0, len(cases), 110):
             run_batch(chk, E, orc, rnd, cases[k:k + 110], "b%d" % k, diffs, fails)
         whole_file(chk, E, orc, rnd, 2 if tier == "quick" else 25, diffs, fails)
+        linker_vars(chk, E, fails)
     finally:
         E.cleanup()
     chk.cov["streams"]["decoders"] = {"cases": chk.cov["evaluations"], "disagreements": len(diffs), "property_failures": len(fails)}
